@@ -124,7 +124,7 @@ impl Model for CModel {
                     s.docs.remove(id);
                     out.push(s);
                 }
-                (Expect::Ok, DOp::SaveExt { key, val }) => {
+                (Expect::Ok, DOp::SaveExt { key, val }) | (Expect::Ok, DOp::SetExt { key, val }) => {
                     let mut s = st.clone();
                     s.ext.insert(format!("k{key}"), *val as u64);
                     out.push(s);
@@ -171,7 +171,7 @@ impl Model for CModel {
             (Expect::Ok, Outcome::Ok) => {
                 let mut s = st.clone();
                 match op {
-                    DOp::SaveExt { key, val } => {
+                    DOp::SaveExt { key, val } | DOp::SetExt { key, val } => {
                         s.ext.insert(format!("k{key}"), *val as u64);
                     }
                     DOp::RemoveExt { key } => {
@@ -211,6 +211,7 @@ pub fn generate_conc(case_seed: u64, idx: u64, _tier: Tier, flavor: &str) -> Con
     let contested_name = rng.below(7) as u8;
     let same_doc = rng.range(1, np as u64);
     let mut clients = Vec::new();
+    let mut setext_n: u8 = 0;
     for _ in 0..nc {
         let n = rng.range(1, if nc >= 3 { 2 } else { 3 });
         let mut ops = Vec::new();
@@ -230,7 +231,7 @@ pub fn generate_conc(case_seed: u64, idx: u64, _tier: Tier, flavor: &str) -> Con
                     // only ids a caller can legitimately hold: those the prefix's adds returned
                     // (an id is not known to anyone before its add returns; see DESIGN.md C05)
                     let id = if rng.chance(2, 3) { same_doc } else { rng.range(1, np as u64) };
-                    match rng.weighted(&[22, 30, 14, 14, 12, 8]) {
+                    match rng.weighted(&[22, 30, 14, 14, 12, 8, 6]) {
                         0 => DOp::Add(DocSpec::generate(&mut rng)),
                         1 => {
                             let f = match rng.below(5) {
@@ -242,10 +243,18 @@ pub fn generate_conc(case_seed: u64, idx: u64, _tier: Tier, flavor: &str) -> Con
                             };
                             DOp::Update { id, fields: vec![f] }
                         }
-                        2 => DOp::Remove { id },
+                        // mostly a known id; sometimes the id a concurrent add is about
+                        // to receive (a caller may guess it; removing nothing must not
+                        // disturb the add)
+                        2 => DOp::Remove { id: if rng.chance(1, 5) { np as u64 + rng.range(1, 2) } else { id } },
                         3 => DOp::Get { id },
                         4 => DOp::Flush,
-                        _ => DOp::SaveExt { key: rng.below(2) as u8, val: rng.below(200) as u8 },
+                        5 => DOp::SaveExt { key: rng.below(2) as u8, val: rng.below(200) as u8 },
+                        _ => {
+                            // values unique within the case and disjoint from save_extension's
+                            setext_n += 1;
+                            DOp::SetExt { key: rng.below(2) as u8, val: 199 + setext_n.min(56) }
+                        }
                     }
                 }
             };
@@ -334,6 +343,19 @@ async fn exec_on(c: &Collection, op: &DOp, vocab: &[String]) -> (Outcome, Option
             Ok(()) => (Outcome::Ok, None),
             Err(e) => fail!(e),
         },
+        DOp::SetExt { key, val } => {
+            // the synchronous setter returns nothing: a handle that is not mutable
+            // ignores the call (and logs). What happened is read back in the same
+            // poll; generated values are unique per case, so "unchanged" = ignored.
+            let k = format!("k{key}");
+            let want = anda_db::schema::Fv::U64(*val as u64);
+            c.set_extension(k.clone(), want.clone());
+            if c.get_extension(&k) == Some(want) {
+                (Outcome::Ok, None)
+            } else {
+                (Outcome::Err { injected: false, not_found: false, text: "set_extension ignored: handle not mutable".to_string() }, Some(true))
+            }
+        }
         DOp::RemoveExt { key } => match c.remove_extension(&format!("k{key}")).await {
             Ok(_) => (Outcome::Ok, None),
             Err(e) => fail!(e),
@@ -394,6 +416,13 @@ pub fn run_conc(case: &ConcCase, rep: &mut RunReport) -> Result<(), Violation> {
         let vocab = vocab.clone();
         tasks.push(Box::pin(async move {
             for op in ops {
+                if let DOp::SetExt { val, .. } = op {
+                    // the synchronous setter runs inside one poll; let it land at a
+                    // scheduler-chosen moment instead of always at the very start
+                    for _ in 0..(*val % 10) {
+                        sim2.yield_now().await;
+                    }
+                }
                 let inv = sim2.tick();
                 let (out, st) = exec_on(&coll, op, &vocab).await;
                 let ret = sim2.tick();
@@ -533,7 +562,8 @@ pub fn run_conc(case: &ConcCase, rep: &mut RunReport) -> Result<(), Violation> {
                 if !(started < *t_done && *t_done < f.ret) {
                     continue;
                 }
-                for r in recs.iter().filter(|r| r.client != f.client && !matches!(r.op, DOp::Get { .. })) {
+                // (the synchronous in-memory setter takes no gate: it is never queued)
+                for r in recs.iter().filter(|r| r.client != f.client && !matches!(r.op, DOp::Get { .. } | DOp::SetExt { .. })) {
                     if r.invoke > started && r.invoke < *t_done {
                         rep.probe("queued_call_at_readonly_transition", 1);
                         if !matches!(r.out, Outcome::Err { .. }) {
@@ -640,6 +670,41 @@ pub fn run_conc(case: &ConcCase, rep: &mut RunReport) -> Result<(), Violation> {
         .filter(|(i, e)| *i < n_prefix || !matches!(e.op, DOp::Get { .. }))
         .map(|(_, e)| e)
         .collect();
+    // A remove of an id nobody had been handed yet (the caller guessed what a
+    // concurrent add would receive) that removed nothing: the property orders
+    // calls by real time *per document*, and on that document the only other
+    // call is the add it overlaps or precedes, so "remove found nothing, then
+    // the add ran" is an admissible order whatever unrelated calls did in
+    // between. It leaves the model unchanged; it is taken out of the history
+    // rather than held to the cross-document real-time order. (A remove that
+    // returns the document, or one issued after the add was acknowledged,
+    // stays in.)
+    let hist2: Vec<Event<DOp, Outcome>> = {
+        let acked_at = |id: u64| -> Option<u64> {
+            hist2.iter().filter_map(|e| match (&e.op, &e.res) {
+                (DOp::Add(_), Some(Outcome::AddOk(i))) if *i == id => e.ret,
+                _ => None,
+            }).min()
+        };
+        let mut dropped = 0u64;
+        let kept: Vec<Event<DOp, Outcome>> = hist2
+            .iter()
+            .filter(|e| {
+                let DOp::Remove { id } = &e.op else { return true };
+                let nothing = matches!(&e.res, Some(Outcome::RemoveOk(None)) | Some(Outcome::Err { not_found: true, .. }));
+                let unacknowledged = acked_at(*id).map(|t| t > e.invoke).unwrap_or(true);
+                if nothing && unacknowledged {
+                    dropped += 1;
+                    false
+                } else {
+                    true
+                }
+            })
+            .cloned()
+            .collect();
+        rep.probe("remove_of_unacknowledged_id_found_nothing", dropped);
+        kept
+    };
     if hist2.len() > 60 {
         return Err(violation!("harness.history-too-long", "history has {} events", hist2.len()));
     }
@@ -712,6 +777,13 @@ pub fn run_conc(case: &ConcCase, rep: &mut RunReport) -> Result<(), Violation> {
             r.final_states.first().map(|s| &s.docs)
         ));
     }
+    // ---- a flush issued now persists everything acknowledged so far, including
+    // what the synchronous in-memory setters changed
+    let mut want_ext: Option<BTreeMap<String, u64>> = None;
+    if case.transition == Transition::None {
+        block(world.coll.flush(anda_db::unix_ms())).map_err(|e| violation!("c05.final-flush-failed", "a flush after all calls returned failed: {e:?}"))?;
+        want_ext = Some(obs.ext.clone());
+    }
     // ---- crash right now: every acknowledged call must survive
     if case.transition == Transition::None || reopen_needed {
         let disk = store.disk().fork();
@@ -730,6 +802,12 @@ pub fn run_conc(case: &ConcCase, rep: &mut RunReport) -> Result<(), Violation> {
         let got2: BTreeMap<u64, MDoc> = obs2.docs.iter().map(|(k, d)| (*k, mdoc(d))).collect();
         if got2 != got {
             return Err(violation!("c05.acked-lost-at-crash", "a crash right after all calls returned recovers {:?}, but the acknowledged state is {:?}", got2.keys(), got.keys()));
+        }
+        if let Some(want) = &want_ext {
+            if &obs2.ext != want {
+                return Err(violation!("c05.extension-not-persisted-by-flush", "after all calls returned the handle reports extensions {want:?}; a flush succeeded, yet a crash right after it recovers {:?}", obs2.ext));
+            }
+            rep.probe("extensions_checked_after_final_flush", 1);
         }
         rep.fire("power_loss", 1);
         sim.install_clock_here();
